@@ -6,6 +6,7 @@ import (
 	"net/http"
 	"os"
 	"path/filepath"
+	"runtime/debug"
 	"sort"
 	"strings"
 
@@ -303,6 +304,33 @@ type Observation struct {
 	ErrRun  string            `json:"err_run,omitempty"`
 	ErrLoad string            `json:"err_load,omitempty"`
 	ErrLang map[string]string `json:"err_lang,omitempty"`
+	// Panics recovered at stage boundaries (generate / load / per-language context)
+	Panics []*PanicInfo `json:"panics,omitempty"`
+}
+
+// guard runs one stage of a pipeline execution and converts a panic of the
+// system under test into an error, recording it, so that the other stages
+// still run (C03/C07 compare outcomes; C04 reads obs.Panics).
+func (o *Observation) guard(stage string, f func() error) (err error) {
+	defer func() {
+		if v := recover(); v != nil {
+			stack := string(debug.Stack())
+			if i := strings.Index(stack, "panic("); i >= 0 {
+				stack = stack[i:]
+			}
+			pi := &PanicInfo{Class: classify(v), Value: truncate(fmt.Sprint(v), 500), Frame: innermostCogFrame(stack), Stack: truncate(stack, 4000)}
+			if r := simrt.Current(); r != nil && r.Aborted != nil {
+				if ov, ok := r.Aborted.(simrt.Overflow); ok {
+					pi.Class, pi.Frame = "stack-overflow", innermostCogFrame(ov.Func+"(")
+				} else {
+					pi.Class = "hang"
+				}
+			}
+			o.Panics = append(o.Panics, pi)
+			err = fmt.Errorf("panic in stage %s: %s", stage, pi.Key())
+		}
+	}()
+	return f()
 }
 
 // Summary returns name -> hash for every component, error *texts* excluded
@@ -380,39 +408,47 @@ func RunPipeline(cfgPath string, params map[string]string, opts RunOpts) (*Obser
 	}
 	var firstErr error
 	if opts.Generate {
-		pipeline, err := codegen.PipelineFromFile(cfgPath, codegen.Parameters(params))
-		if err != nil {
-			obs.ErrRun = err.Error()
-			firstErr = err
-		} else {
+		err := obs.guard("generate", func() error {
+			pipeline, err := codegen.PipelineFromFile(cfgPath, codegen.Parameters(params))
+			if err != nil {
+				return err
+			}
 			if opts.OnPipeline != nil {
 				opts.OnPipeline(pipeline)
 			}
 			fs, err := pipeline.Run(ctx)
 			if err != nil {
-				obs.ErrRun = err.Error()
-				firstErr = err
-			} else {
-				for _, f := range fs.AsFiles() {
-					obs.Files[f.RelativePath] = Sha(f.Data)
-				}
+				return err
 			}
+			for _, f := range fs.AsFiles() {
+				obs.Files[f.RelativePath] = Sha(f.Data)
+			}
+			return nil
+		})
+		if err != nil {
+			obs.ErrRun = err.Error()
+			firstErr = err
+		}
+		if r := simrt.Current(); r != nil && r.Aborted != nil {
+			return obs, firstErr
 		}
 	}
 	if opts.Inspect {
 		resetGlobals()
-		pipeline, err := codegen.PipelineFromFile(cfgPath, codegen.Parameters(params))
-		if err != nil {
-			obs.ErrLoad = err.Error()
-			if firstErr == nil {
-				firstErr = err
+		var pipeline *codegen.Pipeline
+		var schemas ast.Schemas
+		err := obs.guard("load", func() error {
+			var err error
+			pipeline, err = codegen.PipelineFromFile(cfgPath, codegen.Parameters(params))
+			if err != nil {
+				return err
 			}
-			return obs, firstErr
-		}
-		if opts.OnPipeline != nil {
-			opts.OnPipeline(pipeline)
-		}
-		schemas, err := pipeline.LoadSchemas(ctx)
+			if opts.OnPipeline != nil {
+				opts.OnPipeline(pipeline)
+			}
+			schemas, err = pipeline.LoadSchemas(ctx)
+			return err
+		})
 		if err != nil {
 			obs.ErrLoad = err.Error()
 			if firstErr == nil {
@@ -437,11 +473,19 @@ func RunPipeline(cfgPath string, params map[string]string, opts RunOpts) (*Obser
 		}
 		sort.Strings(names)
 		for _, n := range names {
-			c, err := pipeline.ContextForLanguage(langs[n], schemas)
+			var c languages.Context
+			err := obs.guard("context:"+n, func() error {
+				var err error
+				c, err = pipeline.ContextForLanguage(langs[n], schemas)
+				return err
+			})
 			if err != nil {
 				obs.ErrLang[n] = err.Error()
 				if firstErr == nil {
 					firstErr = err
+				}
+				if r := simrt.Current(); r != nil && r.Aborted != nil {
+					break
 				}
 				continue
 			}
